@@ -20,6 +20,10 @@ Import ListNotations.
 From V Require Import Base.U32 Base.Bytes Gen.C12Consts C12.Model C12.Proofs.
 Local Open Scope Z_scope.
 
+(* ev_ok: Time dt has dt >= 0; a server message is not a gate-passing SET_CHANNEL_CONFIG / GET_CHANNEL_CONFIG_RESULT for a
+   relay or shutter function with a non-empty config (chcfg_unmodelled: those handlers belong to C03 and are not followed by
+   this model; ACTIONTRIGGER configurations — supla_esp_input_set_active_triggers — ARE modelled, with any ActiveActions,
+   changed or unchanged, at any moment of a gesture). *)
 (* Configuration mode is entered (from any boot configuration, under any interleaving of server messages over all
    call ids/payloads, button notifications, timer ticks, clock advances and shutter-engine activity) only by
    (d) the boot itself with an incomplete configuration, or an event with one of the causes (a), (b), (c). *)
@@ -74,7 +78,7 @@ Print Assumptions C12_unauthorised_is_inert_recalibrate.
    known_class_precise = a CHANNEL_SET_VALUE / CHANNELGROUP_SET_VALUE of the right size, addressed to a shutter
    channel, for which sv_shutter (times from DurationMS; relay command while auto-calibrating) changes the data. *)
 Theorem C12_no_other_message_touches_calibration_except_known : forall s call p,
-  live s -> ~ known_class_precise s call p ->
+  live s -> chcfg_unmodelled call p = false -> ~ known_class_precise s call p ->
   calib_all (fst (step s (Srv call p))) <> calib_all s ->
   call = CALL_CALCFG_REQUEST /\ calcfg_gate p = true /\ s32 (le32 p REQ_OFF_COMMAND) = CMD_RECALIBRATE /\ nthz p REQ_OFF_AUTH <> 0 /\
   existsb (rmatch (s32 (le32 p REQ_OFF_CHANNEL))) (rss (pre_iter s)) = true.
